@@ -163,7 +163,6 @@ func checkIndicesRep(fn *ssa.Function) string {
 		}
 		return 0, 0, false
 	}
-	isRep := func(v ssa.Value) bool { a, b, ok := lin(v, 0); return ok && a == 1 && b == 0 }
 	isRepMinus1 := func(v ssa.Value) bool { a, b, ok := lin(v, 0); return ok && a == 1 && b == -1 }
 	positive := func(iff *ssa.If, truth bool) bool {
 		return nonZeroTest(iff.Cond, truth, func(v ssa.Value) bool { return v == ssa.Value(rep) })
@@ -177,11 +176,19 @@ func checkIndicesRep(fn *ssa.Function) string {
 				continue
 			}
 			ia, ok := st.Addr.(*ssa.IndexAddr)
-			if !ok || ia.X != ssa.Value(idx) {
+			if !ok {
+				continue
+			}
+			// the indexed base is the index vector itself or a tail of it: i[off:]
+			var off ssa.Value
+			base := ia.X
+			if sl, isSl := base.(*ssa.Slice); isSl && sl.X == ssa.Value(idx) && sl.High == nil && sl.Max == nil {
+				off = sl.Low
+			} else if base != ssa.Value(idx) {
 				continue
 			}
 			// increment of i[rep-1]
-			if bo, ok := st.Val.(*ssa.BinOp); ok && bo.Op == token.ADD && constIs(bo.Y, 1) {
+			if bo, ok := st.Val.(*ssa.BinOp); ok && bo.Op == token.ADD && constIs(bo.Y, 1) && off == nil {
 				ld, ok := bo.X.(*ssa.UnOp)
 				if ok && ld.Op == token.MUL {
 					if ia2, ok := ld.X.(*ssa.IndexAddr); ok && ia2.X == ssa.Value(idx) && symExpr(ia2.Index, 0) == symExpr(ia.Index, 0) {
@@ -198,25 +205,45 @@ func checkIndicesRep(fn *ssa.Function) string {
 				}
 				continue
 			}
-			// reset: i[j] = 0 inside a counted loop j = rep .. len(i)-1
+			// reset: base[j] = 0 inside a counted loop whose positions off+j run from rep to len(i)-1
 			if constIs(st.Val, 0) {
-				phi, ok := ia.Index.(*ssa.Phi)
-				if !ok {
+				// induction variable: a phi {first, phi+1}, used directly or as phi+1 (range loops)
+				var phi *ssa.Phi
+				var first ssa.Value
+				plus := int64(0)
+				switch x := ia.Index.(type) {
+				case *ssa.Phi:
+					phi = x
+				case *ssa.BinOp:
+					if p2, isPhi := x.X.(*ssa.Phi); isPhi && x.Op == token.ADD && constIs(x.Y, 1) {
+						phi, plus = p2, 1
+					}
+				}
+				if phi == nil {
 					why = append(why, "a deeper index is reset outside a loop over all deeper levels: only i["+symExpr(ia.Index, 0)+"] restarts, the levels nested further down keep their old position")
 					continue
 				}
-				startOK, stepOK := false, false
+				stepOK := false
 				for _, e := range phi.Edges {
-					if isRep(e) {
-						startOK = true
-					} else if bo, ok := e.(*ssa.BinOp); ok && bo.Op == token.ADD && bo.X == ssa.Value(phi) && constIs(bo.Y, 1) {
+					if bo, ok := e.(*ssa.BinOp); ok && bo.Op == token.ADD && bo.X == ssa.Value(phi) && constIs(bo.Y, 1) {
 						stepOK = true
+					} else {
+						first = e
 					}
 				}
-				// loop condition j < len(i) guards the body
+				startOK := false
+				if first != nil {
+					a1, b1, ok1 := lin(first, 0)
+					a2, b2, ok2 := int64(0), int64(0), true
+					if off != nil {
+						a2, b2, ok2 = lin(off, 0)
+					}
+					startOK = ok1 && ok2 && a1+a2 == 1 && b1+b2+plus == 0
+				}
+				// loop condition (index) < len(base) guards the body
 				condOK := guarded(b, func(iff *ssa.If, truth bool) bool {
 					bo, ok := iff.Cond.(*ssa.BinOp)
-					if !ok || !truth || bo.Op != token.LSS || bo.X != ssa.Value(phi) {
+					if !ok || !truth || bo.Op != token.LSS || bo.X != ia.Index {
 						return false
 					}
 					call, ok := bo.Y.(*ssa.Call)
@@ -224,7 +251,7 @@ func checkIndicesRep(fn *ssa.Function) string {
 						return false
 					}
 					bi, ok := call.Call.Value.(*ssa.Builtin)
-					return ok && bi.Name() == "len" && call.Call.Args[0] == ssa.Value(idx)
+					return ok && bi.Name() == "len" && call.Call.Args[0] == base
 				}, 0)
 				if startOK && stepOK && condOK && guarded(phi.Block(), positive, 0) {
 					loopOK = true
